@@ -46,6 +46,49 @@ def replace_chain(expr):
     return list(reversed(chain)), cur
 
 
+def mode_threaded(chk, repo):
+    """The compression mode chosen for a program holds for all of it: every
+    call from one transpile function to another that also takes
+    `dict_compress` passes the caller's value on (the parameter defaults to
+    True, so an omitted argument silently switches decompression back on for
+    that subtree)."""
+    mod = repo.mod("transpile")
+    takes = {name: fn for name, fn in mod.functions.items()
+             if any(a.arg == "dict_compress"
+                    for a in fn.args.args + fn.args.kwonlyargs)}
+    n = 0
+    for cname, caller in takes.items():
+        for call in ast.walk(caller):
+            if not (isinstance(call, ast.Call) and isinstance(
+                    call.func, ast.Name) and call.func.id in takes):
+                continue
+            callee = takes[call.func.id]
+            params = [a.arg for a in callee.args.args]
+            passed = None
+            for k in call.keywords:
+                if k.arg == "dict_compress":
+                    passed = k.value
+            if passed is None and "dict_compress" in params:
+                i = params.index("dict_compress")
+                if i < len(call.args):
+                    passed = call.args[i]
+            n += 1
+            ok = isinstance(passed, ast.Name) and passed.id == "dict_compress"
+            chk.ob("C06.compression-mode-threaded",
+                   f"transpile.{cname}:{ast.unparse(call)[:50]}", ok,
+                   f"`{ast.unparse(call)[:70]}` does not pass the caller's "
+                   "dict_compress on"
+                   + (" (it passes `" + ast.unparse(passed) + "`)"
+                      if passed is not None else
+                      ": the callee falls back to its default, True")
+                   + ", so with compression switched off (flag D) strings in "
+                   "that part of the program are still decompressed",
+                   mod.rel, call.lineno,
+                   witness="flag D: ⟨`λƛ`⟩ pushes a dictionary word")
+    chk.unit("calls between transpile functions taking dict_compress", n)
+    chk.floor("calls between transpile functions taking dict_compress", n, 8)
+
+
 def memo_keys(chk, repo, P="C06"):
     """A result remembered in a module-level table must be keyed by every
     input it was computed from: the pipeline is run in two compression modes
@@ -213,6 +256,7 @@ def check(chk, repo, tier):
            witness="a string with 17 backslashes")
 
     memo_keys(chk, repo)
+    mode_threaded(chk, repo)
 
     # ---- the stages, interpreted from source ---------------------------------------
     el = it.module("vyxal.elements")
